@@ -127,7 +127,7 @@ def _check_expr(reader, A, e, c, stats):
         out = must_return(what, lambda: reader[rows])
     else:
         cols = S.to_cols(c)
-        exp = exp[:, cols]
+        exp = exp[:, S.to_cols(c)]
         what = 'reader[%r, %r]' % (rows, cols)
         out = must_return(what, lambda: reader[rows, cols])
         if isinstance(out, BaseEphysReader):
@@ -137,6 +137,9 @@ def _check_expr(reader, A, e, c, stats):
             out = must_return(what + '[:]', lambda: out[:])
     require(isinstance(out, np.ndarray), '%s is not an array' % what, key='not-array',
             observed=type(out))
+    if c is not None and isinstance(cols, np.ndarray):
+        require(np.array_equal(cols, S.to_cols(c)), 'the channel index array of the caller was '
+                'modified', key='input-mutated', observed=cols, expected=S.to_cols(c))
     # (np.concatenate normalises a non-native byte order, so the dtype is compared modulo byte
     # order: same kind and width, same values)
     exp = exp.astype(exp.dtype.newbyteorder('='))
